@@ -497,3 +497,8 @@ def replay(clause, case, col):
         _check_one(case["expr"], col, "replay", clear=False, history=case["history"])
         return
     check_expr(case["expr"], col, "replay-ann" if clause == "same-structure-real" else "replay")
+
+
+def cg_plan(seed):
+    # future.transform is a pure-Python AST visitor: real coverage feedback
+    return [{"kind": k, "seed": seed * 1000 + 900 + i, "n": 0, "cg": {"runs": 60000}} for i, k in enumerate(["ann", "expr", "ann", "expr"])]
